@@ -50,10 +50,13 @@ def main(tier):
                 rep.machinery(f"vacuity: {name} not refuted")
         behs = []
         exports = [("rich", {}, 37), ("richd", {"Decohere": True}, 97), ("long2", {"Rich": False, "Steps": 2}, 13), ("long2d", {"Rich": False, "Steps": 2, "Decohere": True}, 29),
-                   ("det2", {"Rich": False, "Steps": 2, "Detect": True}, 7)]
+                   ("det2", {"Rich": False, "Steps": 2, "Detect": True}, 7),
+                   # a single trajectory (buffers cached per batch size behave differently for nmol = 1), several crossings in a row
+                   ("solo3", {"NTraj": 1, "Rich": False, "Steps": 3}, 3), ("solodet3", {"NTraj": 1, "Rich": False, "Steps": 3, "Detect": True}, 3)]
         if tier == "thorough":
             exports = [("rich", {}, 5), ("richd", {"Decohere": True}, 11), ("long2", {"Rich": False, "Steps": 2}, 2), ("long2d", {"Rich": False, "Steps": 2, "Decohere": True}, 3),
                        ("long3", {"Rich": False, "Steps": 3}, 499), ("long3d", {"Rich": False, "Steps": 3, "Decohere": True}, 997),
+                       ("solo3", {"NTraj": 1, "Rich": False, "Steps": 3}, 1), ("solodet3", {"NTraj": 1, "Rich": False, "Steps": 3, "Detect": True}, 1), ("solo4", {"NTraj": 1, "Rich": False, "Steps": 4}, 7),
                        ("det2", {"Rich": False, "Steps": 2, "Detect": True}, 1), ("det3", {"Rich": False, "Steps": 3, "Detect": True}, 199), ("det3d", {"Rich": False, "Steps": 3, "Detect": True, "Decohere": True}, 499)]
         for name, over, mod in exports:
             out = os.path.join(scratch, f"fssh_{name}.ndjson")
